@@ -57,8 +57,8 @@ CHECKS.update({
             "(Envelope/Expiry.v 970 lines; policy sanity ExpireKeyAfter >= CreateDatePrecision + 1 s).",
             "Clause 3 (an IK whose SK expired stops being used within one interval) is refuted on the faithful model by known findings C04-IK (decrypt-path refresh) and C04-DUP (unvalidated adoption in the fallbacks), both with computed witnesses; outside those "
             "signatures they are decided by the correspondence and the monitor.", "6/C04"),
- "C05": env("Revocation of latest/older IK/SK at boundary offsets: bound of one interval (IK) / two intervals (parent SK) when a later stamp is creatable.", "Known finding C05-IK.", "6/C05"),
- "C07": env("Every mutation kind (bit flips, truncations, splices, nil fields, foreign parents) on genuine records plus corrupted metastore rows: decrypt returns the original payload of the Data it carries or an error, never other bytes, never panics.",
+ "C05": env("Revocation of latest/older IK/SK at boundary offsets: bound of one interval (IK) / two intervals (parent SK) when a later stamp is creatable; and what the bound rests on at the metastore: a Revoked flag an operator writes into the table is visible to the very next Load / LoadLatest of every metastore implementation (SQL x3, DynamoDB v1/v2 over fakes in which an eventually consistent read lags one write behind).", "Known finding C05-IK.", "6/C05"),
+ "C07": env("Every mutation kind (bit flips, truncations, splices, nil fields, foreign parents) on genuine records plus corrupted metastore rows: decrypt returns the original payload of the Data it carries or an error, never other bytes, never panics; the SQL and both DynamoDB metastores under cold sessions with key rows damaged in the engine's own representation (23 kinds x IK/SK row x 5 implementations): Load, LoadLatest, Decrypt, Encrypt return an error or the payload, never panic.",
             "Symbolic AEAD: a modified ciphertext opens under no key.", "6/C07"),
  "C09": env("Secret creation/release traces must equal the model's (release compared as a set per operation); no use after release, no double release, nothing live with caching disabled, nothing live after teardown. "
             "PROVED: the data key of an Encrypt is released on every outcome; over all histories, in a session with key caching disabled ANY Decrypt (any record, tampering, fault plan, outcome) leaves every secret it "
@@ -72,8 +72,11 @@ CHECKS.update({
             "plans (env harness), and the regional KMS fakes re-read the data-key plaintext after EncryptKey/DecryptKey of both AWS plugins.",
             "Partial: the wipe model is not executable against the code (buffers are not part of the envelope model's trace); the tie is the monitor under the same failure choices plus the ADec/KDec/SNew event "
             "correspondence that fixes where such buffers come into existence.", "6/C10", technique="Coq proof (case analysis over failure choices / induction over regions) + buffer re-read monitor under fault plans"),
- "C20": env("Metastore/KMS call traces must equal the model's; with simple caches no key record is re-read and no system key re-unwrapped within one interval of its last load; with caching disabled every operation re-reads and nothing stays live.",
-            "Restricted to keys valid at the time (the revoked-latest corner must consult the metastore).", "6/C20"),
+ "C20": env("Metastore/KMS call traces must equal the model's; with simple caches no key record is re-read and no system key re-unwrapped within one interval of its last load; with caching disabled every operation re-reads and nothing stays live. "
+            "PROVED at session and history level (Envelope/Repeat.v, RepeatH.v, SkOnce.v): a Decrypt/Encrypt that finds its key fresh makes no metastore or KMS call (any cache policy); from EVERY history state a Decrypt step that succeeded on a session with the "
+            "default simple key cache, taken again at once or after any clock advance that keeps the entry within one interval of its load, reports no metastore and no KMS event (all three paths of GetOrLoad); with the system key fresh in the factory's simple cache "
+            "any session env's loadIntermediateKey and the whole loadLatestOrCreateIntermediateKey (validation, creation, store, duplicate fallback) make no KMS call under any fault plan; premises decidable and met in reachable worlds.",
+            "Restricted to keys valid at the time (the revoked-latest corner must consult the metastore); the repeat theorems cover the simple (default) key cache - evicting policies and the encrypt-side repeat are decided by the correspondence and the monitor.", "6/C20"),
 })
 
 CHECKS["C19"] = dict(
@@ -133,10 +136,11 @@ CHECKS["C08"] = dict(
        "model (Envelope/Live.v): through any history of factories, sessions, encrypts/decrypts with any faults, evictions, refreshes and reloads every key sitting in a key cache is open; with session and factory closes in the history (Envelope/LiveCloseD.v) every key an OPEN session of an open factory can reach "
        "through its caches is open; the eviction callback (which releases the cache's reference) is checked to run at most once per entry on the real generic cache. Tie: seeded random and PCT-priority "
        "schedules of 2-4 real goroutines against one factory with capacity-1/2 caches under a cooperative controller whose yield points are inserted by the overlay before every lock acquisition, "
-       "reference-count update and condition wait; monitors: every operation on an open session succeeds with the right bytes, no use after destroy, no double release, no deadlock.",
-  note="Partial: the Go scheduler and memory model are represented by interleavings of the blocks between synchronisation points; data-race freedom is assumed; asynchronous eviction callbacks run uncontrolled. "
+       "reference-count update and condition wait; monitors: every operation on an open session succeeds with the right bytes, no use after destroy, no double release, no deadlock. "
+       "Plus free-running rounds of real goroutines under the Go race detector (harness/cmd/vstress): no unsynchronised conflicting accesses to SDK state, operations on sessions nobody closed succeed.",
+  note="Partial: the Go scheduler and memory model are represented by interleavings of the blocks between synchronisation points; data-race freedom inside a block is checked by the race-detector rounds, not proved; asynchronous eviction callbacks run uncontrolled. "
        "The model is not compared step by step with the code: the tie is the schedule exploration on the real code at the same yield points.",
-  technique="Coq proof (invariant over unbounded threads/schedules) + controlled-schedule exploration of real goroutines", design="6/C08")
+  technique="Coq proof (invariant over unbounded threads/schedules) + controlled-schedule exploration of real goroutines + race-detector rounds", design="6/C08")
 CHECKS["C16"] = dict(
   text="Coq theorem for ANY number of goroutines/partitions, ANY schedule of Get/use/Close/Remove/factory-Close steps and ANY evictions: no holder uses a session whose underlying encryption was closed; usage counter = "
        "number of holders; underlying Close at most once and only after the session left the cache and its last holder closed; one partition id per cached session. Tie: controlled schedules of real goroutines over "
@@ -198,6 +202,7 @@ def main():
         "engines": [
             {"name": "coq", "path": "coq/", "serves_properties": sorted(claimed), "kind_free_text": "Coq 8.16.1 development: executable Gallina models + theorems (Properties/Cxx.v)"},
             {"name": "vrun", "path": "harness/", "serves_properties": sorted(claimed), "kind_free_text": "Go harness run against /repo's working tree through replace + -overlay; emits observations that Coq compares with the model"},
+            {"name": "vstress", "path": "harness/cmd/vstress/", "serves_properties": ["C08"], "kind_free_text": "free-running goroutines on one session factory, built with the Go race detector (go build -race, cgo) against /repo's working tree"},
         ],
         "checks": checks,
         "not_applicable": na,
